@@ -288,15 +288,19 @@ def free_names(fn):
 
 
 def rename_locals(fn, pinned, include_args=False):
-    """Return a copy of `fn` whose locals are renamed, by position in order of first binding, to `pinned` (the locals of
-    the source the lifter was written against, from `binding_order`).  Nothing is renamed unless the function binds
-    exactly len(pinned) locals and the renaming is a bijection that captures no free name of the function; keyword
-    names of calls and attribute names are never touched.  The result is alpha-equivalent to `fn`."""
+    """Return a copy of `fn` whose locals are renamed to `pinned` (the locals of the source the lifter was written
+    against, from `binding_order`).  Locals whose name is pinned keep it; the others, in order of first binding, take
+    the pinned names that are missing, in pinned order (so a rename survives a reordering of OTHER statements).
+    Nothing is renamed unless the function binds exactly len(pinned) locals and the renaming is a bijection that captures
+    no free name of the function; keyword names of calls and attribute names are never touched.  The result is
+    alpha-equivalent to `fn`, so whatever the lifter derives from it holds of `fn`."""
     order = binding_order(fn, include_args=include_args)
-    if order == list(pinned) or len(order) != len(pinned) or len(set(pinned)) != len(pinned):
+    if len(order) != len(pinned) or len(set(pinned)) != len(pinned) or set(order) == set(pinned):
         return fn
-    ren = {a: b for a, b in zip(order, pinned) if a != b}
-    if not ren:
+    new_names = [n for n in order if n not in pinned]
+    missing = [n for n in pinned if n not in order]
+    ren = dict(zip(new_names, missing))
+    if not ren or len(new_names) != len(missing):
         return fn
     untouched = (set(binding_order(fn, include_args=True)) | free_names(fn)) - set(ren)
     if any(b in untouched for b in ren.values()):
@@ -397,3 +401,245 @@ def prefer(node, pinned_src):
         if same_modulo_commutativity(node, p):
             return p
     return node
+
+
+# ------------------------------------------------------------------------------------------------ emitted Lean terms
+def _lean_tokens(text):
+    out, cur = [], ""
+    for ch in text:
+        if ch in "()":
+            if cur:
+                out.append(cur)
+                cur = ""
+            out.append(ch)
+        elif ch.isspace():
+            if cur:
+                out.append(cur)
+                cur = ""
+        else:
+            cur += ch
+    if cur:
+        out.append(cur)
+    return out
+
+
+def lean_ckey(text):
+    """Key of a fully parenthesised arithmetic term as the lifters emit it (`(a + b)`, `(a * (b - c))`, atoms such as
+    `xcur`, `(1 : Rat)`, `(f x y)`): equal for two terms iff they differ only by swapping the operands of binary `+` / `*`
+    nodes.  Anything that is not of the form `( t op t )` is an opaque atom."""
+    toks = _lean_tokens(text)
+    pos = 0
+
+    def term():
+        nonlocal pos
+        if pos >= len(toks):
+            raise ValueError("unbalanced")
+        t = toks[pos]
+        if t == ")":
+            raise ValueError("unbalanced")
+        if t != "(":
+            pos += 1
+            return t
+        pos += 1
+        items = []
+        while pos < len(toks) and toks[pos] != ")":
+            items.append(term())
+        if pos >= len(toks):
+            raise ValueError("unbalanced")
+        pos += 1
+        if len(items) == 3 and items[1] in ("+", "-", "*", "/"):
+            l, op, r = items
+            if op in ("+", "*") and r < l:
+                l, r = r, l
+            return f"[{op} {l} {r}]"
+        return "(" + " ".join(items) + ")"
+    items = []
+    while pos < len(toks):
+        items.append(term())
+    return " ".join(items)
+
+
+def lean_prefer(text, pinned):
+    """`text` if it is not, modulo commutativity of `+` / `*` (numeric terms only!), one of the `pinned` emitted terms;
+    otherwise that pinned term.  Keeps the generated file byte-identical under `a + b` <-> `b + a` refactors."""
+    try:
+        k = lean_ckey(text)
+    except ValueError:
+        return text
+    for p in pinned:
+        if p == text:
+            return text
+        try:
+            if lean_ckey(p) == k:
+                return p
+        except ValueError:
+            continue
+    return text
+
+
+# ------------------------------------------------------------------------------------------------ temporaries
+PURE_FUNCS = PURE_CALLS | {"sum", "min", "max", "abs", "dict", "set", "isinstance", "getattr", "hasattr", "zip", "enumerate"}
+PURE_MODULES = {"np", "numpy", "pd", "pandas", "math"}
+PURE_METHODS = {"format", "copy", "sort_values", "reset_index", "astype", "get", "keys", "items", "values", "join",
+                "transpose", "dot", "sum", "mean", "abs", "min", "max", "idxmin", "idxmax", "reshape", "tolist"}
+
+
+def is_pure_expr(node, extra_funcs=(), extra_methods=()):
+    """side-effect free in the sense needed to move the evaluation of `node` into the NEXT statement: no call other than
+    builtins / numpy / pandas constructors and non-mutating methods (a lifter may add names it knows to be pure)"""
+    for n in ast.walk(node):
+        if isinstance(n, (ast.Await, ast.Yield, ast.YieldFrom, ast.NamedExpr)):
+            return False
+        if isinstance(n, ast.Call):
+            f = n.func
+            if isinstance(f, ast.Name) and (f.id in PURE_FUNCS or f.id in extra_funcs):
+                continue
+            if isinstance(f, ast.Attribute):
+                if isinstance(f.value, ast.Name) and f.value.id in PURE_MODULES and f.attr not in ("seterr", "random"):
+                    continue
+                if f.attr in PURE_METHODS or f.attr in extra_methods:
+                    continue
+            if isinstance(f, ast.Subscript) and isinstance(f.value, ast.Name) and f.value.id in extra_funcs:
+                continue
+            return False
+    return True
+
+
+class _Subst(ast.NodeTransformer):
+    def __init__(self, env):
+        self.env = env
+
+    def visit_Name(self, node):
+        if isinstance(node.ctx, ast.Load) and node.id in self.env:
+            return copy.deepcopy(self.env[node.id])
+        return node
+
+
+def _loads(node, names):
+    return [n.id for n in ast.walk(node) if isinstance(n, ast.Name) and isinstance(n.ctx, ast.Load) and n.id in names]
+
+
+def _header_fields(stmt):
+    """the expression fields of a statement that are evaluated BEFORE any nested statement of it runs"""
+    if isinstance(stmt, (ast.If, ast.While)):
+        return ["test"]
+    if isinstance(stmt, ast.For):
+        return ["iter"]
+    if isinstance(stmt, ast.With):
+        return ["items"]
+    if isinstance(stmt, (ast.FunctionDef, ast.AsyncFunctionDef, ast.ClassDef, ast.Try)):
+        return []
+    return None     # a simple statement: every field
+
+
+def inline_new_temporaries(fn, pinned, extra_funcs=(), extra_methods=()):
+    """Undo the refactor "introduce a temporary for a sub-expression".  Only when `fn` binds MORE locals than the pinned
+    source did: a *new temporary* is a local that is not in `pinned` and not an argument.  A statement `t = <pure expr>`
+    with a new temporary `t`, immediately followed by a statement S, is substituted into S (for a compound S: into its
+    header expression only) when `t` occurs nowhere else in the function, or when S is itself `t = <expr using t>` (a
+    chain `t = e; t = f(t); return g(t)`).  Moving a side-effect-free evaluation into the next statement preserves
+    behaviour.  Works on a copy; returns `fn` itself when nothing applies."""
+    args = {a.arg for a in _all_args(fn)}
+    known = set(pinned) | args
+    order = binding_order(fn)
+    new = {n for n in order if n not in known}
+    if not new or len(order) <= len(pinned):
+        return fn
+    fn2 = copy.deepcopy(fn)
+    changed = False
+
+    def occurrences(t):
+        return sum(1 for n in ast.walk(fn2) if isinstance(n, ast.Name) and n.id == t)
+
+    def is_temp_assign(s):
+        return (isinstance(s, ast.Assign) and len(s.targets) == 1 and isinstance(s.targets[0], ast.Name)
+                and s.targets[0].id in new and is_pure_expr(s.value, extra_funcs, extra_methods)
+                and not _loads(s.value, {s.targets[0].id}))
+
+    def header_nodes(consumer):
+        hdr = _header_fields(consumer)
+        if hdr is None:
+            return None, [consumer]
+        nodes = []
+        for f in hdr:
+            v = getattr(consumer, f)
+            nodes.extend(v if isinstance(v, list) else [v])
+        return hdr, nodes
+
+    def try_inline(s, consumer):
+        t = s.targets[0].id
+        hdr, nodes = header_nodes(consumer)
+        loads = stores = 0
+        for node in nodes:
+            for n in ast.walk(node):
+                if isinstance(n, ast.Name) and n.id == t:
+                    if isinstance(n.ctx, ast.Load):
+                        loads += 1
+                    else:
+                        stores += 1
+        rebinding = (isinstance(consumer, ast.Assign) and len(consumer.targets) == 1
+                     and isinstance(consumer.targets[0], ast.Name) and consumer.targets[0].id == t and stores == 1)
+        if not rebinding and (stores or occurrences(t) != 1 + loads):
+            return None
+        sub = _Subst({t: s.value})
+        if hdr is None:
+            if rebinding:
+                consumer.value = sub.visit(consumer.value)
+            else:
+                consumer = sub.visit(consumer)
+        else:
+            for f in hdr:
+                v = getattr(consumer, f)
+                setattr(consumer, f, [sub.visit(x) for x in v] if isinstance(v, list) else sub.visit(v))
+        return consumer
+
+    # `occurrences` walks fn2, so the block being rewritten must be attached while it is processed
+    def attach(node):
+        for f in ("body", "orelse", "finalbody"):
+            v = getattr(node, f, None)
+            if isinstance(v, list) and v and isinstance(v[0], ast.stmt):
+                setattr(node, f, block_attached(node, f))
+
+    def block_attached(node, field):
+        nonlocal changed
+        again = True
+        while again:
+            again = False
+            stmts = getattr(node, field)
+            for i in range(len(stmts) - 1):
+                if is_temp_assign(stmts[i]):
+                    c = try_inline(stmts[i], stmts[i + 1])
+                    if c is not None:
+                        stmts[i:i + 2] = [c]
+                        changed = again = True
+                        break
+        for s in getattr(node, field):
+            attach(s)
+            for h in getattr(s, "handlers", []):
+                attach(h)
+        return getattr(node, field)
+
+    attach(fn2)
+    if not changed:
+        return fn
+    ast.fix_missing_locations(fn2)
+    return fn2
+
+
+def canon_function(fn, pinned, extra_funcs=(), extra_methods=()):
+    """new temporaries inlined, then locals alpha-renamed to the pinned names"""
+    return rename_locals(inline_new_temporaries(fn, pinned, extra_funcs, extra_methods), pinned)
+
+
+def canon_tree(tree, pinned_by_function, extra_funcs=(), extra_methods=()):
+    """apply canon_function to the named functions / methods of a module, in place: {"f": [...], "Cls.m": [...]}"""
+    def walk(body, prefix):
+        for i, n in enumerate(body):
+            if isinstance(n, (ast.FunctionDef, ast.AsyncFunctionDef)):
+                key = prefix + n.name
+                if key in pinned_by_function:
+                    body[i] = canon_function(n, pinned_by_function[key], extra_funcs, extra_methods)
+            elif isinstance(n, ast.ClassDef):
+                walk(n.body, prefix + n.name + ".")
+    walk(tree.body, "")
+    return tree
